@@ -450,8 +450,47 @@ func (s *sess) byteStep(b *behaviour, si int, prevp *[]int) bool {
 			}
 		}
 	}
+	// appendable.Reader (buffered sequential reads through ReadAt) delivers the array from the discard mark to its end;
+	// only where the transcription predicts no deviating read (a Reader fills its buffer with reads that reach past the end)
+	if (s.variant == "probe" || si == len(b.Ops)-1) && len(st.Devs) == 0 {
+		if !s.readerCheck(b, si) {
+			return false
+		}
+	}
 	*prevp = st.Ideal
 	return true
+}
+
+func (s *sess) readerCheck(b *behaviour, si int) bool {
+	st := &b.Ops[si]
+	want := st.Ideal[st.Disc:]
+	r := appendable.NewReaderFrom(s.app, int64(st.Disc), 1+si%5)
+	got := []int{}
+	var rerr error
+	for k := 1; len(got) <= len(want)+8; k = k%4 + 1 {
+		var n int
+		buf := make([]byte, k)
+		if k == 1 {
+			var c byte
+			if c, rerr = r.ReadByte(); rerr == nil {
+				buf[0], n = c, 1
+			}
+		} else {
+			n, rerr = r.Read(buf)
+		}
+		got = append(got, s.atomsOf(buf[:n])...)
+		if rerr != nil {
+			break
+		}
+	}
+	s.res.Count("reader-scans", 1)
+	if rerr == io.EOF && eqInts(got, want) && r.ReadCount() == int64(len(want)) {
+		return true
+	}
+	s.res.Violate("appendable.Reader:sequential-read-differs-from-byte-array",
+		fmt.Sprintf("cfg %s: after %s a Reader (buffer %d) from offset %d delivers %v err=%v count=%d, the byte array holds %v", s.c.Name, show(b.Ops[:si+1]), 1+si%5, st.Disc, got, rerr, r.ReadCount(), want),
+		s.ctx(b, si, map[string]interface{}{"got": got}))
+	return false
 }
 
 // content reads [from, to) with one ReadAt
